@@ -1,6 +1,7 @@
 package props
 
 import (
+	"sync/atomic"
 	"bufio"
 	"bytes"
 	"context"
@@ -35,7 +36,13 @@ func init() { Registry["C19"] = runC19 }
 type findServer struct {
 	mu sync.Mutex
 	db map[string][]model.ProviderResult // key: multihash bytes
+	nreq atomic.Int64
+	noFlushServed atomic.Int64
 }
+
+// plainWriter hides every optional interface of the server's ResponseWriter (http.Flusher in particular), the way
+// a middleware wrapper does
+type plainWriter struct{ http.ResponseWriter }
 
 func (s *findServer) set(mh multihash.Multihash, prs []model.ProviderResult) {
 	s.mu.Lock()
@@ -53,6 +60,10 @@ func writeAPIError(w http.ResponseWriter, err error) {
 }
 
 func (s *findServer) ServeHTTP(w http.ResponseWriter, r *http.Request) {
+	if s.nreq.Add(1)%3 == 0 {
+		w = plainWriter{w} // every third request is answered through a writer that cannot flush
+		s.noFlushServed.Add(1)
+	}
 	rw, err := rwriter.New(w, r, rwriter.WithPreferJson(true))
 	if err != nil {
 		writeAPIError(w, err)
@@ -138,6 +149,7 @@ func runC19(c *vf.Ctx) {
 	defer srv.Close()
 	c19Client(c, srvState, srv)
 	c19Raw(c, srvState, srv)
+	c.Add("requests_served_through_a_writer_that_cannot_flush", srvState.noFlushServed.Load())
 	c19APIError(c)
 }
 
@@ -302,14 +314,13 @@ func c19Raw(c *vf.Ctx, st *findServer, srv *httptest.Server) {
 			pathType, key, keyKind = "multihash", mh.B58String(), "b58"
 		case 3, 4:
 			pathType, key, keyKind = "multihash", hex.EncodeToString(mh), "hex"
-			allB58 := true
-			for _, ch := range key {
-				if !strings.ContainsRune(b58Alphabet, ch) {
-					allB58 = false
+			// a hex string without the digit 0 is also a base58 string; only when reading it as base58 gives a
+			// valid multihash too is the key really ambiguous (the helper's base58-first rule then decides)
+			if b, err := base58.Decode(key); err == nil {
+				c.Inc("hex_keys_that_are_also_base58_strings")
+				if _, err := multihash.Decode(b); err == nil {
+					wantKey = "either"
 				}
-			}
-			if allB58 {
-				wantKey = "either" // the helper's base58-first rule legitimately wins
 			}
 		case 5:
 			pathType, key, keyKind = "cid", cid.NewCidV1(cid.Raw, mh).String(), "cidv1"
